@@ -102,8 +102,11 @@ type History struct {
 	FarEpoch bool `json:"far_epoch,omitempty"`
 	// CapNear (with Coinomics): the maximum supply is only 2*10^13 aISLM above the genesis supply, so minting reaches
 	// the cap within the history and switches itself off
-	CapNear bool     `json:"cap_near,omitempty"`
-	Blocks  []HBlock `json:"blocks"`
+	CapNear bool `json:"cap_near,omitempty"`
+	// TinyBaseFee: the fee market starts with a base fee of 3 and a gas target far below any real block (elasticity
+	// 1000 on a finite block gas limit), so the base fee moves by the minimum step of one per block
+	TinyBaseFee bool     `json:"tiny_base_fee,omitempty"`
+	Blocks      []HBlock `json:"blocks"`
 }
 
 const hUsers = 5
@@ -112,7 +115,7 @@ var hKinds = []string{
 	"send", "send", "delegate", "delegate", "delegate", "undelegate", "undelegate", "redelegate", "withdraw", "setwithdraw",
 	"gov-submit", "gov-deposit", "gov-vote", "vest-create", "vest-create", "vest-clawback", "lv-liquidate", "lv-redeem",
 	"dao-fund", "dao-transfer", "eth-send", "eth-create", "eth-call", "eth-call", "eth-delegate", "eth-withdraw", "eth-prog",
-	"bad-nonce", "low-fee", "unjail", "send-module", "multisend-new", "delegate-all", "eth-fanout", "eth-approve-toucher", "eth-toucher", "erc20-deploy", "erc20-mint", "erc20-transfer", "erc20-transfer", "erc20-convert",
+	"bad-nonce", "low-fee", "unjail", "send-module", "multisend-new", "delegate-all", "eth-fanout", "eth-approve-toucher", "eth-toucher", "eth-blockhash", "erc20-deploy", "erc20-mint", "erc20-transfer", "erc20-transfer", "erc20-convert",
 }
 
 var hGovKinds = []string{"register-erc20", "register-erc20", "toggle-pair", "precompile-off", "precompile-swap", "erc20-switch", "register-coin", "upgrade-plan", "fork-schedule", "coinomics-switch"}
@@ -154,6 +157,7 @@ func genHistory(t *rapid.T, minBlocks, maxBlocks int, kinds []string) History {
 	h.ModuleAccts = rapid.Bool().Draw(t, "module-accts")
 	h.FarEpoch = rapid.IntRange(0, 2).Draw(t, "far-epoch") == 0
 	h.CapNear = h.Coinomics && rapid.IntRange(0, 2).Draw(t, "cap-near") == 0
+	h.TinyBaseFee = !h.NoBaseFee && !h.LateForks && rapid.IntRange(0, 2).Draw(t, "tiny-base-fee") == 0
 	nb := rapid.IntRange(minBlocks, maxBlocks).Draw(t, "nblocks")
 	for i := 0; i < nb; i++ {
 		b := HBlock{Dt: rapid.SampledFrom(hDts).Draw(t, "dt"), Proposer: rapid.IntRange(0, 3).Draw(t, "proposer")}
@@ -195,7 +199,12 @@ func genHistory(t *rapid.T, minBlocks, maxBlocks int, kinds []string) History {
 			h.Blocks[i+1].Txs = append(h.Blocks[i+1].Txs, HTx{K: "dao-fund", A: (a + 1) % hUsers, V: rapid.SampledFrom([]int{0, 0, 1}).Draw(t, "liquid-dao-v"), Amt: "1000"})
 		}
 		h.Blocks[i+2].Txs = append([]HTx{{K: "lv-redeem", A: (a + 1) % hUsers, B: rapid.IntRange(0, hUsers-1).Draw(t, "liquid-to"), N: 0, V: rapid.IntRange(0, 2).Draw(t, "liquid-rfrac")}}, h.Blocks[i+2].Txs...)
-		if rapid.IntRange(0, 2).Draw(t, "liquid-counter") == 0 {
+		if rapid.IntRange(0, 3).Draw(t, "liquid-expired") == 0 {
+			// the lockup runs out before the redeem, and the redeemer names a module account as the payee
+			h.Blocks[i+2].Dt = 400 * 86400
+			h.Blocks[i+2].Txs[0].N = 7
+			h.Blocks[i+2].Txs[0].V = rapid.IntRange(0, 2).Draw(t, "liquid-expired-v") * 3
+		} else if rapid.IntRange(0, 2).Draw(t, "liquid-counter") == 0 {
 			// two liquidations (two liquid denominations), then the younger one is redeemed completely: its record goes,
 			// the denomination counter stays
 			h.Blocks[i+1].Txs[0].V = 1
@@ -260,6 +269,13 @@ func genHistory(t *rapid.T, minBlocks, maxBlocks int, kinds []string) History {
 			}
 		}
 	}
+	if has("eth-blockhash") && nb >= 5 && rapid.IntRange(0, 2).Draw(t, "blockhash-scenario") == 0 {
+		// late in the history a contract asks for the hash of a block further back than the chain keeps headers for
+		a := rapid.IntRange(0, hUsers-1).Draw(t, "bh-a")
+		for k := 0; k < 2; k++ {
+			h.Blocks[nb-1-k].Txs = append(h.Blocks[nb-1-k].Txs, HTx{K: "eth-blockhash", A: a, N: rapid.IntRange(2, nb-2).Draw(t, "bh-n")})
+		}
+	}
 	if has("eth-toucher") && nb >= 2 && rapid.IntRange(0, 3).Draw(t, "toucher-scenario") == 0 {
 		// a user delegates to validator 0, lets its agent contract undelegate, and calls it: the agent touches the pools with
 		// zero-value calls before the precompile moves coins into them
@@ -303,6 +319,9 @@ func hOpts(h History) chain.Opts {
 		must(err)
 		o.GenesisTime = ts.UTC()
 	}
+	if h.TinyBaseFee && !h.NoBaseFee && !h.LateForks {
+		o.MaxGas = 60_000_000
+	}
 	if h.Coinomics {
 		p := coinomicstypes.DefaultParams()
 		g := coinomicstypes.NewGenesisState(p, sdk.NewCoin(chain.Denom, sdkmath.NewIntWithDecimal(1, 29)))
@@ -321,6 +340,7 @@ func hOpts(h History) chain.Opts {
 		var sg stakingtypes.GenesisState
 		cdc.MustUnmarshalJSON(gs[stakingtypes.ModuleName], &sg)
 		sg.Params.UnbondingTime = 120 * time.Second
+		sg.Params.HistoricalEntries = 3 // BLOCKHASH sees only the last three headers
 		gs[stakingtypes.ModuleName] = cdc.MustMarshalJSON(&sg)
 
 		var sl slashingtypes.GenesisState
@@ -376,6 +396,13 @@ func hOpts(h History) chain.Opts {
 			cc.LondonBlock, cc.ArrowGlacierBlock, cc.GrayGlacierBlock, cc.MergeNetsplitBlock, cc.ShanghaiBlock, cc.CancunBlock = nil, nil, nil, nil, nil, nil
 			eg.Params.ChainConfig = cc
 			gs[evmtypes.ModuleName] = cdc.MustMarshalJSON(&eg)
+		}
+		if h.TinyBaseFee && !h.NoBaseFee && !h.LateForks {
+			var fg feemarkettypes.GenesisState
+			cdc.MustUnmarshalJSON(gs[feemarkettypes.ModuleName], &fg)
+			fg.Params.BaseFee = sdkmath.NewInt(3)
+			fg.Params.ElasticityMultiplier = 1000
+			gs[feemarkettypes.ModuleName] = cdc.MustMarshalJSON(&fg)
 		}
 		if h.NoBaseFee || h.LateForks {
 			var fg feemarkettypes.GenesisState
@@ -506,6 +533,7 @@ func fanoutRuntime() []byte {
 }
 
 var hFanoutAddr = evmasm.FrameAddr(9)
+var hBlockhashAddr = evmasm.FrameAddr(10)
 
 // buildTx turns an intent into signed tx bytes (nil = nothing to do in this state).
 func (r *hRunner) buildTx(x HTx) []byte {
@@ -726,7 +754,10 @@ func (r *hRunner) buildTx(x HTx) []byte {
 		}
 		return cosmos(target, 15000000, lvtypes.NewMsgLiquidate(target.Addr, A.Addr, sdk.NewCoin(chain.Denom, q)))
 	case "lv-redeem":
-		// redeem whatever liquid denom A holds
+		// redeem whatever liquid denom A holds (N == 7: the coins are to be paid to a module account)
+		if x.N == 7 {
+			B = chain.Account{Addr: authtypes.NewModuleAddress(hModuleTargets[(x.V+x.B)%len(hModuleTargets)])}
+		}
 		for _, c := range app.BankKeeper.GetAllBalances(ctx, A.Addr) {
 			if len(c.Denom) > 7 && c.Denom[:7] == "aLIQUID" {
 				q := c.Amount.QuoRaw(int64(1 + x.V%3))
@@ -844,6 +875,10 @@ func (r *hRunner) buildTx(x HTx) []byte {
 	case "eth-withdraw":
 		to := pabi.DistributionAddr
 		return eth(&to, big.NewInt(0), pabi.Pack("distribution", "withdrawDelegatorRewards", A.Hex, val.OperatorAddress), 600000)
+	case "eth-blockhash":
+		// a contract stores the hash of the block N+1 blocks back (within or beyond what the chain keeps)
+		to := hBlockhashAddr
+		return eth(&to, big.NewInt(0), common.BigToHash(big.NewInt(int64(1+x.N))).Bytes(), 200000)
 	case "eth-approve-toucher":
 		to := pabi.StakingAddr
 		return eth(&to, big.NewInt(0), pabi.Pack("staking", "approve", hToucherAddr(x.A%hUsers), new(big.Int).Mul(oneISLM, big.NewInt(1000)), []string{"/cosmos.staking.v1beta1.MsgUndelegate"}), 600000)
@@ -1106,6 +1141,8 @@ func (r *hRunner) RunBlock(b HBlock, feed *BlockFeed) (BlockTrace, BlockFeed) {
 		for u := 0; u < hUsers; u++ {
 			n.InstallCode(hToucherAddr(u), hToucher(u))
 		}
+		// sstore(0, blockhash(number - calldataload(0)))
+		n.InstallCode(hBlockhashAddr, []byte{0x60, 0x00, 0x35, 0x43, 0x03, 0x40, 0x60, 0x00, 0x55, 0x00})
 	}
 	for _, e := range bb.Events {
 		if e.Type == "slash" {
